@@ -235,6 +235,40 @@ def history_work(chunk):
         acc.samples.append(dict(first=[firsts[0], '10.5'], then=['MAR', '10.5'], outcome=list(alone[('MAR', '10.5')])))
     return acc.pack()
 
+DENSE_CODES = ['60', '100', '200', '400', '800', '1500', '3000', '5000', '10000', 'MAR', 'XC', 'MILE', '110H', '400H', '4x100', '4x400', '3000W', '20KW', '100m', '5K', 'HM', '3000SC',
+               'HJ', 'SP', 'JT', 'DEC']
+
+
+def dense_work(chunk):
+    """every VALUE of the fields for a few codes of every distance class: mm:ss for mm, ss in 0..99 (and minutes 100..119), one field 0..199, h:mm:ss over
+    seven hour values x every minute x five second values, with a few decimal tails - the special cases keyed on particular field values"""
+    tier, code = chunk
+    G = setup(tier)
+    acc = Acc()
+    tails = ['', '.5', '.05'] if tier == 'quick' else ['', '.5', '.05', '.999', '.1234', ',5']
+    for mm in list(range(0, 100)) + [100, 104, 119]:
+        for ss in range(0, 100):
+            for tl in tails:
+                check_one(G, acc, code, '%d:%02d%s' % (mm, ss, tl), 'all', None, CustomError)
+        for ss in (0, 5, 9):
+            check_one(G, acc, code, '%d:%d.3' % (mm, ss), 'all', None, CustomError)      # one-digit seconds with a fraction
+    for f in range(0, 200):
+        for tl in tails + ['.999', '.1234']:
+            check_one(G, acc, code, '%d%s' % (f, tl), 'all', None, CustomError)
+            check_one(G, acc, code, '%d%s' % (f, tl), 'f', 2, CustomError)
+    for h in (0, 1, 2, 9, 10, 23, 99):
+        for mm in range(0, 62):
+            for ss in (0, 7, 30, 59, 60):
+                for tl in ('', '.5'):
+                    check_one(G, acc, code, '%d:%02d:%02d%s' % (h, mm, ss, tl), 'all', None, CustomError)
+                    if mm < 10:
+                        check_one(G, acc, code, '%d:%d:%d%s' % (h, mm, ss, tl), 'all', 1, CustomError)
+    for t in ('1: 02.5', '1 :02.5', ' 1:02.5 ', '1:02 .5', '12 .5', '1:02.5s', '12.5s', '12.5 s', '2m03', "2'03.5", '−12.5', '１２.5', '12：30', '+12.5', '12.5+', '1e1', '0x1F', '12.50000000001'):
+        check_one(G, acc, code, t, 'all', None, CustomError)
+        check_one(G, acc, code, t, 'all', None, ValueError)
+    return acc.pack()
+
+
 def fmt_thousandths(n):
     """a duration of n thousandths of a second written the customary way: s.ddd, m:ss.ddd or h:mm:ss.ddd"""
     s, ms = divmod(n, 1000)
@@ -313,6 +347,7 @@ def run(tier):
     merge(rep, pmap(work, [(tier, codes[i::64]) for i in range(64)]), part='%d event codes x %d texts x gender/precision/error-class combinations' % (len(codes), len(T)))
     merge(rep, pmap(history_work, [([c],) for c in HIST_CODES]), part='call-order histories: %d codes (case / suffix spellings) x 3 texts, then %d probes, vs the probe alone from a restored state' % (
         len(HIST_CODES), len(HIST_CODES) * len(HIST_TEXTS)))
+    merge(rep, pmap(dense_work, [(tier, c) for c in DENSE_CODES]), part='dense field values: %d codes x every mm:ss (0..99 x 0..99), every single field 0..199, h:mm:ss over 7 hours x 62 minutes x 5 seconds, odd punctuation' % len(DENSE_CODES))
     tb = merge(rep, pmap(boundary_work, [(tier, codes[i::64]) for i in range(64)]),
                part='acceptance boundaries (bisection on a geometric ladder of marks), every 0.001 step in a window around each, x decimals x precision')
     if tb['extra'].get('boundaries', 0) < 100:
